@@ -267,11 +267,12 @@ class ocv_T1:
         net = Network([Branch('a', '0', elm.voltage_source('Vs', V)), Branch('a', 'b', elm.impedance('Z1', Z1)),
                        Branch('0', 'b', elm.impedance('Z2', Z2)), Branch('0', 'b', elm.current_source('Is', I))], '0')
         s = nodal_analysis_bias_point_solver(net)
-        return (f(net, 'a', 'b'), f(net, 'b', 'a'), f(net, 'b', 'b'), f(net, 'b', '0'), s.get_potential('a'), s.get_potential('b'))
+        return (f(net, 'a', 'b'), f(net, 'b', 'a'), f(net, 'b', 'b'), f(net, 'b', '0'), s.get_potential('a'), s.get_potential('b'), f(net, '0', 'b'))
 
     def ensures(result, V, I, Z1, Z2):
-        ab, ba, bb, b0, pa, pb = result
+        ab, ba, bb, b0, pa, pb, zero_b = result
         return {'difference of potentials': eq(ab, pa - pb), 'antisymmetric': eq(ba, -ab), 'same node': eq(bb, 0), 'to reference': eq(b0, pb),
+                'from the reference node (antisymmetric there too)': eq(zero_b, -pb),
                 'hand value': eq(pb * (Z1 + Z2), (V * Z2 + I * Z1 * Z2))}
 
 
